@@ -358,6 +358,41 @@ func ruleBulkOps(cx *Ctx) {
 				}
 				ad.check(name+": record kind", sc.Args[len(sc.Args)-1] == wantRefresh, "BulkGet starts load records, bulk refresh starts refresh records", "isRefresh="+sc.Args[len(sc.Args)-1], o)
 			}
+			if spec.kind == "bulkGet" && !o.Cut && !panicked && len(o.Rets) == 2 {
+				// ---- a record of a load that is already in flight (shouldLoad false) is awaited before BulkGet returns -
+				// unless its own dispatch failed, which is returned at once
+				dispatchFailed := false
+				for _, d := range disps {
+					if isNil, k := predOf(o, "IsNil("+d.Args[0]+")"); k && !isNil {
+						dispatchFailed = true
+					}
+				}
+				for _, sc := range starts {
+					rec := sc.Args[0] + ".0"
+					sl, known := predOf(o, sc.Args[0]+".1")
+					if !known || sl || dispatchFailed {
+						continue
+					}
+					waited := false
+					for _, w := range allEvents(o, "Wait") {
+						if len(w.Args) < 2 {
+							continue
+						}
+						if w.Args[1] == rec {
+							waited = true
+						}
+						if strings.HasSuffix(w.Args[1], ".v") {
+							src := o.S.cells["&rangeof:"+strings.TrimSuffix(w.Args[1], ".v")]
+							for _, e := range allEvents(o, "MapUpdate") {
+								if e.Args[0] == src && e.Args[2] == rec {
+									waited = true
+								}
+							}
+						}
+					}
+					ad.check(name+": joined => awaited", waited, "a key whose load is already in flight is waited for before BulkGet returns (the caller receives that load's result instead of nothing)", "record "+rec+" is never waited on", o)
+				}
+			}
 			if spec.kind == "bulkGet" {
 				ao.check(name+": at most one bulk dispatch", len(disps) <= 1, "the bulk loader is invoked at most once per BulkGet", fmt.Sprintf("%d dispatches", len(disps)), o)
 				// result assembly
